@@ -128,7 +128,7 @@ fn num_equal(kind_a: Kind, a: u64, kind_b: Kind, b: u64) -> bool {
         let wb = if kind_b == Kind::F32 { (f32::from_bits(b as u32) as f64).to_bits() } else { b };
         wa == wb
     } else {
-        let signed = |k: Kind| matches!(k, Kind::I8 | Kind::I16 | Kind::I32 | Kind::I64);
+        let signed = |k: Kind| matches!(k, Kind::I8 | Kind::I16 | Kind::I32 | Kind::I64 | Kind::I128);
         let ia: i128 = if signed(kind_a) { a as i64 as i128 } else { a as i128 };
         let ib: i128 = if signed(kind_b) { b as i64 as i128 } else { b as i128 };
         ia == ib
